@@ -15,6 +15,7 @@ func init() {
 			g8Registry(c)
 			g13Fields(c)
 			g8CallsReachAdd(c.Repo, c.Rep)
+			g14VisitContinues(c.Repo, c.Rep)
 			c.Rep.floor("G11", 6)
 			c.Rep.floor("G1", 350)
 			runR_C01(c)
@@ -105,6 +106,8 @@ func init() {
 		run: func(c *Ctx) {
 			runG4(c.Repo, c.Rep)
 			runG10(c.Repo, c.Rep)
+			g14ReservedProvenance(c.Repo, c.Rep)
+			g14VisitContinues(c.Repo, c.Rep)
 			c.Rep.floor("G4", 10)
 			c.Rep.floor("G10", 9)
 		},
@@ -115,6 +118,7 @@ func init() {
 	checks["C08"] = &checkDef{
 		run: func(c *Ctx) {
 			runG6(c.Repo, c.Rep)
+			g14ReservedProvenance(c.Repo, c.Rep)
 			c.Rep.floor("G6", 8)
 		},
 		explanation: "G6: every range over a Go map in main/derive/plugin/* is classified (insert-only / constant reduction / append-then-sort are order-insensitive; first-match returns, emission or unsorted appends are violations); no package-level variable is written outside main/init and no package-level reference value escapes into per-package state; no clock/random/environment/goroutine input; printers, qualifiers, type tables and generators are constructed in newPackage only. Not decided: ordering inside go/loader and gotool (third-party), path-spelling independence, timing.",
@@ -126,6 +130,9 @@ func init() {
 			runG1(c.Repo, c.Rep)
 			c.Rep.floor("G1", 350)
 			g12HasUndefined(c)
+			g14NilPkg(c.Repo, c.Rep)
+			runG15(c.Repo, c.Rep)
+			runG9(c, "equal.canEqual", "deepcopy.canCopy", "contains.canEqual", "derive.IsComparable")
 			runR_C09(c)
 		},
 		explanation: "G1: every error-returning call in main/derive/plugin/* (412 on the pinned tree) is returned, or tested with the non-nil branch ending in a non-nil error return / fatal exit; drops, blank assignments, swallows (`if err != nil { return nil }`) and error branches that stay inside a work loop are violations. G12: (*call).HasUndefined is tabulated over go/types kinds — on every path that answers `fully defined` it examined the whole type (String() rendering or every constituent), so unresolved argument types are always deferred. Engine R: no abstract run of any plugin (including runs Add rejects) hits a definite generator panic (index out of the established length, unchecked type assertion on an unrefined kind, Out underflow, explicit panic); no accepted run emits unparsable text; unsupported constituents (chan/func/interface) at every position of the structural plugins end in generator-error runs; operators are emitted only for kinds that support them. Not decided: termination of the reload loop, panics inside third-party code, broken user files.",
@@ -148,6 +155,8 @@ func init() {
 		run: func(c *Ctx) {
 			runG7(c.Repo, c.Rep)
 			runG11(c.Repo, c.Rep)
+			g14ReservedProvenance(c.Repo, c.Rep)
+			g14AddNameUsed(c.Repo, c.Rep)
 			c.Rep.floor("G7", 40)
 		},
 		explanation: "G7: SetFuncName's structured control flow is enumerated path by path over the atoms {name-of-types hit, hit==requested, requested bound, bound types eq, dedup, autoname}; each of the 36 consistent states must yield exactly the outcome the property prescribes (requested / existing only with -dedup / fresh only with -autoname / error / register in both tables). newName returns a candidate that was tested after its last update against both funcToTyps and reserved, built from the current prefix; GetFuncName registers exactly the name it returns; the reserved set is complete before any table uses it; nameOf answers only under eq (G11). Not decided: eq uses assignability rather than identity (outside the property's pairwise-non-assignable quantifier); type-correctness after renaming (C01).",
